@@ -127,25 +127,29 @@ def main(tier, seed):
     c["skipped_unsupported"] = len(skipped)
     c["rule"] = (
         "save/load cases = one step (object, prettify, written lines, loaded object) of a history save -> load -> "
-        "analyse -> save on seeded random Wordlist / LexStat / Alignments objects (80% inside the property's "
-        "quantifier, 20% with None/float cells, blanks at the ends, TAB/LF inside); reader cases = hand-assembled "
-        "TSV text (padding, comments, @-lines, blocks, header case, id column variants, broken rows); block cases = "
-        "<dst>/<scorer> blocks with k/32 ties, short decimals and arbitrary doubles.  Non-trivial = object inside "
-        "the quantifier with >= 2 rows and at least one int/list cell; reader: file loads with >= 2 rows; blocks: "
-        ">= 2 taxa.  Distinct by full input.")
+        "analyse -> save on seeded random Wordlist / LexStat (derived columns; ignore='all' or [] with @-lines and scorer "
+        "blocks; clustering sca/edit-dist/turchin) / Alignments (align(); msa blocks when ignore=[]) objects, 80% inside "
+        "the property's quantifier, 20% with None/float cells, blanks at the ends, TAB/LF inside, plus corpus/serialize; "
+        "reader cases = hand-assembled TSV text (padding, comments, @-lines, blocks, header case, id column variants, "
+        "broken rows); block cases = <dst>/<scorer> blocks with k/32 ties, short decimals and arbitrary doubles. "
+        "Non-trivial = object inside the quantifier with >= 2 rows and at least one int/list cell; reader: file loads "
+        "with >= 2 rows; blocks: >= 2 taxa and the file loads. Distinct by full input.")
     c["exhaustive"] = False
     c["trusted_base"] += [
         "translator harness/translate/namespace_rc.py (wordlist.rc -> coq/gen/NamespaceRc.v, class expressions recognised "
         "by AST shape, fail-closed)",
-        "correspondence check harness/comp/serialize.py: written file compared line by line with Serialize.write, the "
-        "loaded object with Serialize.read of the written lines, LexStat.pairs with Serialize.pairs, inside Coq",
+        "correspondence check harness/comp/serialize.py: written file compared as text with Serialize.write (the meta/block "
+        "section is taken from the implementation's text and only scanned), the loaded object with Serialize.read of the "
+        "written lines, LexStat.pairs with Serialize.pairs, derived column types with Serialize.derived_columns, inside Coq",
         "Unicode: NFC normalisation of the file is the identity on text assembled from NFC cells with TAB/space/LF "
-        "separators (not modelled); str.lower/upper modelled on ASCII only; CR never generated",
+        "separators (not modelled); str.lower/upper modelled on ASCII only; CR never generated; int()/float() on "
+        "non-ASCII digits, exponent notation, inf/nan not modelled (never generated)",
         "floats: Fraction(x) of the double that is written; '{:.4f}' is the correctly rounded (half-even) decimal of that "
         "exact value; a double read back is identified by its repr() (<= 15 significant digits)",
-        "modelled, not verified: wl2qlc, read_qlc, QLCParser.__init__ conversion loop, LexStat pairs, matrix2dst, read_dst, "
-        "scorer2str, read_scorer; not modelled: @json/@tree lines, <msa>/<json>/<csv>/<tre> blocks (msa state compared "
-        "between the saved and the loaded object only)"]
+        "value types: basictypes.lists/ints count as lists of their item type; an empty list has no item type",
+        "modelled, not verified: wl2qlc, read_qlc, QLCParser.__init__ conversion loop, LexStat derived columns and pairs, "
+        "matrix2dst, read_dst, scorer2str, read_scorer; not modelled: @json/@tree lines, <msa>/<json>/<csv>/<tre> blocks "
+        "and Alignments.add_alignments (msa state and re-analysis compared between the saved and the loaded object only)"]
     run.assumptions += ["strings are NFC, CR-free; column names ASCII",
                         "float list items print as plain decimals (no exponent notation)"]
     return run.finish()
